@@ -2437,6 +2437,8 @@ func (m *repoManager) modifyDataByName(uuid dvid.UUID, name dvid.InstanceName, c
 type repoT struct {
 	sync.RWMutex // Currently, we lock entire repo for any changes since repo mods should be relatively infrequent
 
+	saveMu sync.Mutex // orders the persisted versions of this repo's record (see saveToStore)
+
 	id      dvid.RepoID
 	uuid    dvid.UUID
 	version dvid.VersionID
@@ -2824,17 +2826,23 @@ func (r *repoT) saveToStore(db storage.OrderedKeyValueDB) error {
 	if db == nil {
 		return fmt.Errorf("cannot save repo to nil store")
 	}
-	r.RLock()
 	compression, err := dvid.NewCompression(dvid.LZ4, dvid.DefaultCompression)
 	if err != nil {
 		return err
 	}
+
+	// Serialize and store under one mutex: with concurrent saves, a record serialized earlier
+	// could reach the store after one serialized later and drop the changes in between.
+	r.saveMu.Lock()
+	defer r.saveMu.Unlock()
+
+	r.RLock()
 	serialization, err := dvid.Serialize(r, compression, dvid.CRC32)
+	tk := r.id.Bytes()
+	r.RUnlock()
 	if err != nil {
 		return err
 	}
-	tk := r.id.Bytes()
-	r.RUnlock()
 
 	var ctx storage.MetadataContext
 	return db.Put(ctx, storage.NewTKey(repoKey, tk), serialization)
